@@ -160,6 +160,14 @@ type JReq struct {
 	// the rest of the request, which the gate must not look at: HTTP method ("" = GET) and other header fields
 	Method string      `json:"method"`
 	XH     [][2]string `json:"xh"`
+	Target string      `json:"target"` // path and query of the request URL ("" = /private): another name a layer may special-case
+}
+
+func (q JReq) url() string {
+	if q.Target == "" {
+		return "http://localhost/private"
+	}
+	return "http://localhost" + q.Target
 }
 
 // applyXH adds the other header fields of a case to the request. A name "raw:<name>" is stored under exactly
@@ -815,7 +823,7 @@ func runJwt(c Case) []JObs {
 		for k := range o.View.Claims {
 			keys = append(keys, k) // never reset: the claim names of EARLIER tokens are looked for as well
 		}
-		r := newReq(q.Method, "http://localhost/private", nil)
+		r := newReq(q.Method, q.url(), nil)
 		applyXH(r, q.XH)
 		setAuth(r, vals)
 		rec, p := serve(h, r)
@@ -846,7 +854,7 @@ func runTp(c Case) []TpObs {
 			first = vals[0]
 		}
 		o := TpObs{View: classify(first, present, cl.Secret, cl.Prev)}
-		r := newReq(cl.Req.Method, "http://localhost/private", nil)
+		r := newReq(cl.Req.Method, cl.Req.url(), nil)
 		applyXH(r, cl.Req.XH)
 		setAuth(r, vals)
 		func() {
